@@ -27,10 +27,11 @@ def arr(xs):
     """an ndarray the way the solver under test would hold it (object dtype when symbolic)"""
     xs = [unwrap(v) for v in xs]
     if sym():
+        from symex.loader import SymArray
         a = _np.empty(len(xs), dtype=object)
         for i, v in enumerate(xs):
             a[i] = v
-        return a
+        return a.view(SymArray)
     return _np.array([float(v) for v in xs], dtype=float)
 
 
@@ -41,7 +42,8 @@ def mat(rows):
         for i, r in enumerate(rows):
             for j, v in enumerate(r):
                 a[i, j] = v
-        return a
+        from symex.loader import SymArray
+        return a.view(SymArray)
     return _np.array([[float(v) for v in r] for r in rows], dtype=float)
 
 
@@ -242,3 +244,12 @@ def state_of(s):
     pop = [vec(p) for p in s.population]
     en = [scalar(e) for e in vec(s.popEnergy)]
     return pop, en, vec(s.bestSolution), scalar(s.bestEnergy)
+
+
+def builtin(mod, name):
+    """the builtin `name` as seen by code of module `mod` (the symbolic loader substitutes float/int)"""
+    b = getattr(mod, '__builtins__', None)
+    if isinstance(b, dict) and name in b:
+        return b[name]
+    import builtins as _b
+    return getattr(_b, name)
